@@ -286,11 +286,89 @@ def member_names():
     return out
 
 
+def _state_writers(a, roots):
+    """functions of module `a` that assign (`global X; X = ...`) a module global which the functions `roots` read, directly or
+    through functions of the module they call -- found on the module's AST, no names listed.  -> [(function, [argument tuples])]:
+    the memo / flag state behind the wrappers can be put into every state its writers can produce before the wrappers are compared."""
+    import ast, inspect
+    try:
+        tree = ast.parse(inspect.getsource(a))
+    except Exception:
+        return [], []
+    fns = {n.name: n for n in tree.body if isinstance(n, (ast.FunctionDef, ast.AsyncFunctionDef))}
+    seen, todo, reads = set(), [x for x in roots if x in fns], set()
+    while todo:
+        q = todo.pop()
+        if q in seen:
+            continue
+        seen.add(q)
+        for x in ast.walk(fns[q]):
+            if isinstance(x, ast.Name):
+                if x.id in fns:
+                    todo.append(x.id)
+                else:
+                    reads.add(x.id)
+    out = []
+    for q, fn in sorted(fns.items()):
+        written = {nm for x in ast.walk(fn) if isinstance(x, ast.Global) for nm in x.names} & reads
+        if not written:
+            continue
+        params = [p.arg for p in fn.args.posonlyargs + fn.args.args]
+        if len(params) > 3 or fn.args.kwonlyargs:
+            continue
+        out.append((getattr(a, q, None), list(itertools.product((True, False, None), repeat=len(params)))))
+    cells = sorted(nm for fn in fns.values() for x in ast.walk(fn) if isinstance(x, ast.Global) for nm in x.names if nm in reads)
+    return [(f, args) for (f, args) in out if callable(f)], cells
+
+
+def archive_wrapper_states():
+    """the cached wrappers in every state that the writers of the module globals behind them can produce"""
+    r = router()
+    from sharepoint2text.parsing.extractors import archive_extractor as a
+    writers, cells = _state_writers(a, ("_is_supported_file_cached", "_get_file_extractor_cached", "_should_skip_file"))
+    if not writers:
+        return None
+    saved = {c: getattr(a, c) for c in cells if hasattr(a, c)}
+    sample = ["a.txt", "b.pdf", "c.weird", "noext", "d.text", "E.DOCX", "f.tar.gz", "minutes.text.br"]
+    try:
+        for f, argsets in writers:
+            for args in argsets:
+                for c, v in saved.items():
+                    setattr(a, c, v)
+                _clear_caches()
+                try:
+                    f(*args)
+                except Exception:  # noqa
+                    continue
+                for p in sample:
+                    for wname, want_fn in (("_is_supported_file_cached", lambda q: ("value", r.is_supported_file(q))), ("_get_file_extractor_cached", outcome)):
+                        w = getattr(a, wname, None)
+                        if w is None:
+                            continue
+                        want = want_fn(p)
+                        try:
+                            g = w(p)
+                            got = ("value", g if isinstance(g, bool) else f"{type(g).__name__} {getattr(g, '__name__', '')}") if wname.startswith("_is") else ("ok", f"{g.__module__}.{g.__name__}")
+                        except Exception as e:  # noqa
+                            got = ("notsupported", None) if type(e).__name__ == "ExtractionFileFormatNotSupportedError" else ("other", type(e).__name__)
+                        if got != want:
+                            return ({"filename": p, "after the call": f"archive_extractor.{f.__name__}{args!r}", "mimetypes": "default"},
+                                    f"router: {want}", f"{wname} -> {got}", f"archive_extractor.py::{wname}")
+    finally:
+        for c, v in saved.items():
+            setattr(a, c, v)
+        _clear_caches()
+    return None
+
+
 def archive_wrappers():
     """the cached wrappers of archive_extractor against the router they wrap, and the skip rule against its statement"""
     import os
     r = router()
     from sharepoint2text.parsing.extractors import archive_extractor as a
+    bad = archive_wrapper_states()
+    if bad is not None:
+        return bad
     sup_c = getattr(a, "_is_supported_file_cached", None)
     ext_c = getattr(a, "_get_file_extractor_cached", None)
     skip = getattr(a, "_should_skip_file", None)
